@@ -43,7 +43,7 @@ ASSUMPTIONS = [
 
 
 def gen_top(tape):
-    k = tape.weighted("config", [(2, "TestResult"), (1, "TextTestResult"), (1, "TestByTestResult"), (3, "Multi"), (3, "TFR"),
+    k = tape.weighted("config", [(2, "TestResult"), (1, "TextTestResult"), (1, "ExtendedTestResult-double"), (1, "TestByTestResult"), (3, "Multi"), (3, "TFR"),
                                  (3, "E2O"), (3, "E2Stream"), (4, "stack")], "reporter-side")
     if k == "Multi":
         return [k, [tape.choice("config", ("extended", "testtools", "2.7", "2.6"), "flavour") for _ in range(1 + tape.draw("config", 2, "fanout"))]]
@@ -80,6 +80,10 @@ def run_one(tape, opts):
             result = TestResult()
         elif k == "TextTestResult":
             result = TextTestResult(io.StringIO())
+        elif k == "ExtendedTestResult-double":
+            # the recording TestResult implementation the package ships for other people's tests
+            from testtools.testresult.doubles import ExtendedTestResult
+            result = ExtendedTestResult()
         elif k == "TestByTestResult":
             result = TestByTestResult(lambda **kw: None)
         elif k == "Multi":
